@@ -14,7 +14,7 @@ import z3
 from . import contract as C
 from . import spec
 from .lemmas import axioms_for, collect
-from .symex import (Engine, PathExec, Pure, State, Frame, get_funcinfo, make_shape, pick_env,
+from .symex import (Engine, PathExec, Pure, State, Frame, get_funcinfo, make_shape, pick_env, ct_globals,
                     RET, RAISE, NEXT, TRUE, FALSE)
 from .vals import (IntV, BoolV, TupV, ConstV, UnkV, ExcV, int_term, lift, simp, pow2_f, bitlen_f,
                    reset_fresh, mk_and)
@@ -576,6 +576,23 @@ def verify_unit(target, enum_assign, opts=None):
                 c = p.truthy(p.inline_spec(fn, [], {}, extra_env=pick_env(fn, env)))
                 eng.oblig(st2, 'exception', 'returns-only-if-not:%s' % excname, z3.Not(c), lineno,
                           props=ct.all_props)
+            if ct.post_hints:
+                henv = dict(env2)
+                for k, v in st2.env.items():
+                    if k.startswith('g_'):
+                        henv[k] = v
+                ph = Pure(eng, st2, henv, ct_globals(ct), True, TRUE, lineno)
+                import ast as _ast
+                for src in ct.post_hints:
+                    node = _ast.parse(src.strip()).body[0]
+                    used = [n.id for n in _ast.walk(node) if isinstance(n, _ast.Name)
+                            and isinstance(n.ctx, _ast.Load) and n.id.startswith('g_')]
+                    if any(u not in henv for u in used):
+                        continue
+                    if isinstance(node, _ast.Assign):
+                        henv[node.targets[0].id] = ph.ev(node.value)
+                    else:
+                        st2.assume(ph.truthy(ph.ev(node.value)))
             for name, fn, props in ct.ensures:
                 e = p.inline_spec(fn, [], {}, extra_env=pick_env(fn, env2))
                 goal = p2truthy(p, e)
@@ -598,6 +615,7 @@ def verify_unit(target, enum_assign, opts=None):
                           props=ct.all_props, extra=val.info)
     out['returning_paths'] = nret
     out['notes'] = list(eng.notes)
+    out['callees'] = sorted(getattr(eng, 'used_contracts', set()))
     # anchors: every loop invariant / ghost key of the contract must have been bound
     for k in ct.loops:
         if k >= len(fi.loop_nodes):
@@ -608,6 +626,8 @@ def verify_unit(target, enum_assign, opts=None):
     want = opts.get('clauses')
     rlimit = opts.get('rlimit', DEFAULT_RLIMIT)
     for ob in eng.obligations:
+        if opts.get('prop') and ob.kind == 'ensures' and opts['prop'] not in (ob.props or ()):
+            continue
         rec = {'name': ob.name, 'kind': ob.kind, 'clause': ob.clause, 'line': ob.lineno,
                'props': list(ob.props) if ob.props else None, 'trace': ob.trace[-12:]}
         if ob.extra:
